@@ -21,14 +21,32 @@ TdvpIsland(c) ==
     LET G == FillCores(IF c.cplx THEN "complex" ELSE "real", c.seed, OpShape(c.dims, c.rg))
     IN  [H |-> HermCores(c.kind, G, c.dims), x0 |-> FullRankCores(c.dims, c.r0, c.seed + 3, c.cplx)]
 
+\* Weakly entangled states of maximal ranks under a non-entangling Hamiltonian: the Schmidt values stay at
+\* 10^-7 relative (between a truncation threshold 10^-12 and its square root), so a threshold applied to anything
+\* but sigma_k / sigma_1 changes the result although the ranks are maximal and nothing may be cut.
+LocalHerm(seed, k) == <<<<CI(1 + ((seed + k) % 3)), CI(((seed * 2 + k) % 3) - 1)>>, <<CI(((seed * 2 + k) % 3) - 1), CI(0 - 1 - ((seed + 2 * k) % 2))>>>>
+Eye2 == <<<<C1, CZ>>, <<CZ, C1>>>>
+RankOneOp(mats) == [k \in 1..Len(mats) |-> <<[i \in 1..2 |-> [j \in 1..2 |-> <<mats[k][i][j]>>]]>>]
+RECURSIVE LocalSumFrom(_, _, _)
+LocalSumFrom(d, seed, i) ==
+    LET term == RankOneOp([k \in 1..d |-> IF k = i THEN LocalHerm(seed, i) ELSE Eye2])
+    IN  IF i = d THEN term ELSE AddCores(term, LocalSumFrom(d, seed, i + 1))
+\* 10^7 * (product state) + (full-rank perturbation): first core of the product part carries the factor
+WeakCores(dims, seed) ==
+    LET d == Len(dims)
+        prod == [k \in 1..d |-> <<[i \in 1..dims[k] |-> <<<<CI((IF k = 1 THEN 10000000 ELSE 1) * (1 + ((seed + i + k) % 2)))>>>>]>>]
+    IN  AddCores(prod, FullRankCores(dims, MaxRanks(dims), seed + 3, FALSE))
+WeakConfigs == {[weak |-> TRUE, dims |-> [k \in 1..d |-> 2], seed |-> seed, e |-> 3, steps |-> 2] : d \in 2..4, seed \in {1, 2}}
+WeakIsland(c) == [H |-> LocalSumFrom(Len(c.dims), c.seed, 1), x0 |-> WeakCores(c.dims, c.seed)]
+
 TdvpDims == IF Level = 1 THEN {<<2, 2>>, <<2, 2, 2>>, <<3, 2>>} ELSE {<<2>>, <<2, 2>>, <<2, 2, 2>>, <<3, 2>>, <<2, 3, 2>>, <<2, 2, 2, 2>>}
 TdvpConfigs ==
     UNION {{[dims |-> dims, rg |-> rg, kind |-> kd[1], cplx |-> cplx, seed |-> seed, r0 |-> r0, e |-> kd[2], steps |-> n] :
               rg \in {1, 2}, kd \in {<<"ind", 6>>, <<"pd", 9>>}, cplx \in BOOLEAN, seed \in {1}, r0 \in RankProfiles(dims),
               n \in {1, 3}} : dims \in TdvpDims}
 TdvpIx(c) == ISum(c.dims) * 3 + ISum(c.r0) * 5 + c.rg + c.steps * 7 + (IF c.cplx THEN 1 ELSE 0) + Len(c.kind)
-TInit == cfg \in {c \in TdvpConfigs : TdvpIx(c) % NShards = Shard} /\ out = <<>>
-TBuild == out = <<>> /\ out' = <<TdvpIsland(cfg)>> /\ UNCHANGED cfg
+TInit == cfg \in ({c \in TdvpConfigs : TdvpIx(c) % NShards = Shard} \cup {c \in WeakConfigs : (Len(c.dims) + c.seed) % NShards = Shard}) /\ out = <<>>
+TBuild == out = <<>> /\ out' = <<IF "weak" \in DOMAIN cfg THEN WeakIsland(cfg) ELSE TdvpIsland(cfg)>> /\ UNCHANGED cfg
 TNext == TBuild
 TEmit == out # <<>> => PrintT("@@CASE " \o ToJson([cfg |-> cfg, isl |-> out[1], maxranks |-> MaxRanks(cfg.dims)]))
 =============================================================================
